@@ -1,6 +1,7 @@
 import ParryModel.Proto
 import ParryModel.C08.Model
 import ParryModel.C08.Model2
+import ParryModel.C08.Model3
 /-!
 C08 protocol handler.  One function `hist`: the arguments encode a whole operation history; the output is, after every
 operation, the delta of the complete tree state against the state after the previous operation (see `harness/src/c08.rs`).
@@ -430,8 +431,153 @@ def dfsOracle (ops : List POp) (qb : Aabb3 Float) (o d : V3 Float) (tmax : Float
           | some (i, _) => s!"fail ray-hit-leaf-missed {i}"
           | none => "pass"
 
+/-! ## every entry point: `bvttall` (two trees), `travall` (depth-first, one tree), `bfirst` (best-first) -/
+
+def pairLt (a b : Nat × Nat) : Bool := a.1 < b.1 || (a.1 == b.1 && a.2 < b.2)
+def sortPairs (ps : List (Nat × Nat)) : List (Nat × Nat) := (ps.toArray.qsort pairLt).toList
+def sortIds (xs : List Nat) : List Nat := (xs.toArray.qsort (· < ·)).toList
+def fmtPairs (ps : List (Nat × Nat)) : String := " ".intercalate (ps.map fun (a, b) => s!"{a}:{b}")
+
+def bvttLabels : List String := ["seq", "stk", "mod", "mods", "par", "par1", "par2", "par8", "parn"]
+def travLabels : List String := ["dfn", "dfs", "ctx", "par", "par1", "par2", "par8", "parn"]
+
+/-- the tokens following `key` up to the next label -/
+def segOf (labels : List String) (out : List String) (key : String) : Option (List String) :=
+  if out.contains key then some (((out.dropWhile (· != key)).drop 1).takeWhile (fun t => !labels.contains t)) else none
+
+/-- brute-force judgement of one visited pair set of a complete two-tree traversal -/
+def bvttJudge (l1 l2 : List (Nat × Aabb3 Float)) (pos : Option (Iso3 Float)) (ps : List (Nat × Nat)) (complete : Bool) : Option String :=
+  if ps.eraseDups.length != ps.length then some "pair-reported-twice"
+  else match ps.find? (fun (a, b) => !(l1.any (·.1 == a)) || !(l2.any (·.1 == b))) with
+    | some (a, b) => some s!"dead-leaf-in-pair {a}:{b}"
+    | none =>
+      if !complete then none else
+      let tol : Rat := 1 / 1000000000
+      let b2 := l2.map fun (j, bx) => (j, match pos with
+        | some m => imageBoxQ (qiso3 m) (qbox bx)
+        | none => qbox bx)
+      let missed := l1.findSome? fun (i, bx) =>
+        let B := qbox bx
+        (b2.find? fun (j, C) => overlapBy tol B C && !ps.contains (i, j)).map fun (j, _) => (i, j)
+      match missed with
+      | some (i, j) => some s!"overlapping-pair-missed {i}:{j}"
+      | none => none
+
+/-- oracle for `bvttall`: every complete entry point (sequential, with_stack, parallel on 1/2/8/all threads, node_parallel)
+must report every overlapping pair of live leaves, no dead leaf, nothing twice; the `modified` variants (which prune on
+the CHANGED flags) must report live pairs only, nothing twice, and nothing the complete traversal does not report -/
+def bvttAllOracle (o1 o2 : List POp) (pos : Option (Iso3 Float)) (out : List String) : String :=
+  if out.head? == some "PANIC" then "fail panic" else
+  if !(refitLast o1 && refitLast o2) && !(o1.isEmpty || o2.isEmpty) then "skip history-does-not-end-with-refit" else
+  let l1 := liveAfter o1
+  let l2 := liveAfter o2
+  let segs := bvttLabels.map fun k => (k, (segOf bvttLabels out k).bind parsePairs)
+  match segs.find? (·.2.isNone) with
+  | some (k, _) => s!"fail unparsable-output {k}"
+  | none =>
+    let seq := ((segs.find? (·.1 == "seq")).bind (·.2)).getD []
+    let bad := segs.findSome? fun (k, ps) =>
+      let ps := ps.getD []
+      let complete := k != "mod" && k != "mods"
+      match bvttJudge l1 l2 pos ps complete with
+      | some why => some s!"fail {k} {why}"
+      | none =>
+        if !complete then (ps.find? (fun p => !seq.contains p)).map fun (a, b) => s!"fail {k} pair-not-in-complete-traversal {a}:{b}"
+        else none
+    bad.getD "pass"
+
+def ptrav : P (List POp × Aabb3 Float × V3 Float) := do
+  let ops ← plist pop; let b ← pbox; let p ← pv3; pend; pure (ops, b, p)
+
+/-- oracle for `travall`: every depth-first entry point with a box predicate reports every live leaf whose current box
+overlaps the query box, no dead leaf, nothing twice -/
+def travAllOracle (ops : List POp) (qb : Aabb3 Float) (out : List String) : String :=
+  if out.head? == some "PANIC" then "fail panic" else
+  if !(refitLast ops) && !ops.isEmpty then "skip history-does-not-end-with-refit" else
+  let live := liveAfter ops
+  let tol : Rat := 1 / 1000000000
+  let Q := qbox qb
+  let bad := travLabels.findSome? fun k =>
+    match (segOf travLabels out k).bind (fun ts => ts.mapM String.toNat?) with
+    | none => some s!"fail unparsable-output {k}"
+    | some ids =>
+      if ids.eraseDups.length != ids.length then some s!"fail {k} leaf-reported-twice"
+      else match ids.find? (fun i => !(live.any (·.1 == i))) with
+        | some i => some s!"fail {k} dead-leaf-reported {i}"
+        | none => (live.find? (fun (i, bx) => overlapBy tol (qbox bx) Q && !ids.contains i)).map fun (i, _) =>
+            s!"fail {k} overlapping-leaf-missed {i}"
+  bad.getD "pass"
+
+/-- exact squared distance from a point to a box -/
+def dist2Q (p : V3 Rat) (b : Aabb3 Rat) : Rat :=
+  let ax (x lo hi : Rat) : Rat := let d := max (max (lo - x) 0) (x - hi); d * d
+  ax p.x b.mins.x b.maxs.x + ax p.y b.mins.y b.maxs.y + ax p.z b.mins.z b.maxs.z
+
+/-- oracle for `bfirst`: the best-first search returns a live leaf whose cost is the minimum over all live leaves of the
+squared distance from the query point to the leaf's current box (`none` iff there is no live leaf) -/
+def bfirstOracle (ops : List POp) (p : V3 Float) (out : List String) : String :=
+  if out.head? == some "PANIC" then "fail panic" else
+  if !(refitLast ops) && !ops.isEmpty then "skip history-does-not-end-with-refit" else
+  let live := liveAfter ops
+  let P := q3 p
+  let best : Option Rat := live.foldl (fun acc (_, bx) =>
+    let d := dist2Q P (qbox bx)
+    match acc with
+    | none => some d
+    | some m => some (min m d)) none
+  let judge (k : String) : Option String :=
+    match segOf ["bf", "bfn"] out k with
+    | some ["none"] => if best.isNone then none else some s!"fail {k} nothing-found-although-leaves-exist"
+    | some [c, i] =>
+      match pfloatTok c, i.toNat?, best with
+      | some cost, some id, some m =>
+        match live.find? (·.1 == id) with
+        | none => some s!"fail {k} dead-leaf-returned {id}"
+        | some (_, bx) =>
+          let d := dist2Q P (qbox bx)
+          let cq := q cost
+          if !(leTol d cq tolDefault && leTol cq d tolDefault) then some s!"fail {k} cost-differs-from-leaf-distance {id}"
+          else if !(leTol d m tolDefault) then some s!"fail {k} not-the-nearest-leaf {id}"
+          else none
+      | _, _, none => some s!"fail {k} leaf-returned-from-empty-tree"
+      | _, _, _ => some s!"fail unparsable-output {k}"
+    | _ => some s!"fail unparsable-output {k}"
+  match judge "bf", judge "bfn" with
+  | some w, _ => w
+  | _, some w => w
+  | none, none => "pass"
+
 def handler (fn : String) : Option Handler :=
   match fn with
+  | "bvttall" => some {
+      model := fun a => (run pbvtt a).map fun (o1, o2, m) =>
+        match finalModel o1, finalModel o2 with
+        | some w1, some w2 =>
+          match traverseBvtt w1.q w2.q m, traverseModifiedBvtt w1.q w2.q m with
+          | some ps, some ms =>
+            let P := fmtPairs (sortPairs ps)
+            let M := fmtPairs (sortPairs ms)
+            " ".intercalate (bvttLabels.map fun k => s!"{k} {if k == "mod" || k == "mods" then M else P}")
+          | _, _ => "PANIC"
+        | _, _ => "PANIC"
+      oracle := fun a o => match run pbvtt a with
+        | some (o1, o2, m) => bvttAllOracle o1 o2 m o
+        | none => "skip bad-args" }
+  | "travall" => some {
+      model := fun a => (run ptrav a).map fun (ops, b, _) =>
+        match (finalModel ops).bind fun w => intersectAabb w.q b with
+        | some ids =>
+          let I := " ".intercalate ((sortIds ids).map toString)
+          " ".intercalate (travLabels.map fun k => s!"{k} {I}")
+        | none => "PANIC"
+      oracle := fun a o => match run ptrav a with
+        | some (ops, b, _) => travAllOracle ops b o
+        | none => "skip bad-args" }
+  | "bfirst" => some {
+      model := fun _ => some "-"
+      oracle := fun a o => match run ptrav a with
+        | some (ops, _, p) => bfirstOracle ops p o
+        | none => "skip bad-args" }
   | "bvtt" => some {
       model := fun a => (run pbvtt a).map fun (o1, o2, m) =>
         match finalModel o1, finalModel o2 with
